@@ -17,7 +17,7 @@ func init() {
 		Explanation: "Decided (structural necessary conditions, both script builders — dcmd.InitSequence and sshsb.(*SSHSandbox).initSequence): R1 the string that carries an environment value is rebuilt from the SSA concatenation as a template of constant pieces and symbolic holes (KEY, TAG, VALUE) and lexed as shell: VALUE must be the whole body of a here-document whose delimiter word is quoted (so the shell performs no expansion in the body), whose delimiter contains TAG, which starts right after the delimiter line and is closed by a line consisting of the same delimiter; VALUE may not appear anywhere else (e.g. inside a format string); R2 TAG derives from varutil.RandString with a constant length >= 8 evaluated inside the builder on every call (not a package-level or cached value), and the opening and closing delimiter are the same value; R3 every store into the environment map is dominated by a nil result of the key validator for that key (Set) or for the whole map being copied (SetAll), the validator errors exactly when the pattern does not match, and the pattern — parsed from the source constant with regexp/syntax — is anchored at both ends with a language included in [A-Za-z_][A-Za-z0-9_]*. " +
 			"R2 also: varutil.RandString does not create or seed its generator on every call (no rand.NewSource/Seed/New inside it): a per-call clock seed makes the terminator predictable. " +
 			"Added in round 6: R3 accepts a validator that collects every failure (append or a collector call) and returns the aggregate of the list, also in two phases (failing keys collected, then validated again for the messages) when validKey is shown to depend on its argument alone (no writes, no mutable reads, only pure callees). " +
-			"Added in round 7: R3 requires that the name valid() hands to the validator is the ranged map key itself (not a trimmed copy of what SetAll stores), and accepts a validator that collects the failing names, returns nil only where that list is known empty and otherwise a fresh error or the deterministic validator applied again to a collected name. " +
+			"Added in round 7: R3 requires that the name valid() hands to the validator and the name SetAll stores are the same form of the ranged map key (the key itself, or one and the same normaliser applied to it - not a trimmed copy validated and the original stored), and accepts a validator that collects the failing names, returns nil only where that list is known empty and otherwise a fresh error or the deterministic validator applied again to a collected name. " +
 			"NOT decided: what /bin/sh does with the script beyond the POSIX rule used in R1 (a quoted delimiter disables expansion); values containing a line equal to the random delimiter (probabilistic argument, R2).",
 	})
 }
@@ -687,12 +687,10 @@ func ruleEnvNames(c *Ctx) {
 					}
 				}
 				if valid != nil && ci.Static == valid {
-					// key ranges over the validated map
-					if ex, isEx := mu.Key.(*ssa.Extract); isEx {
-						if nx, isNx := ex.Tuple.(*ssa.Next); isNx {
-							if rg, isRg := nx.Iter.(*ssa.Range); isRg && rg.X == ci.Arg(0) {
-								ok2 = true
-							}
+					// key ranges over the validated map, and is stored in the form that was validated
+					if hk, rx, okT := keyTransformOf(mu.Key); okT && rx == ci.Arg(0) {
+						if hv, okV := validTransform(valid, validKey); okV && hv == hk {
+							ok2 = true
 						}
 					}
 				}
@@ -797,6 +795,13 @@ func ruleEnvNames(c *Ctx) {
 			ownKey := false
 			if ex, isEx := resolve(call.Call.Args[len(call.Call.Args)-1]).(*ssa.Extract); isEx && ex.Index == 1 {
 				_, ownKey = ex.Tuple.(*ssa.Next)
+			}
+			if !ownKey {
+				// ... or one fixed normalisation of it; the store rule then demands the same
+				// normalisation where the name is stored
+				if h, _, ok := keyTransformOf(call.Call.Args[len(call.Call.Args)-1]); ok && h != nil {
+					ownKey = true
+				}
 			}
 			if !ownKey {
 				// ... or an element of a local slice that holds nothing but the map's keys (sorted first)
@@ -1333,4 +1338,76 @@ func twoPhaseValidation(valid, validKey *ssa.Function) bool {
 		}
 	}
 	return false
+}
+
+// keyTransformOf: v is the key of a map range, or h(key) for a static string->string function h
+// without receiver (a normaliser).  Returns h (nil for the key itself) and the ranged map.
+func keyTransformOf(v ssa.Value) (h *ssa.Function, ranged ssa.Value, ok bool) {
+	v = resolve(v)
+	if call, isC := v.(*ssa.Call); isC {
+		f := call.Call.StaticCallee()
+		if f == nil || f.Signature.Recv() != nil || len(call.Call.Args) != 1 || f.Signature.Results().Len() != 1 ||
+			!isStringy(f.Signature.Results().At(0).Type()) || !isStringy(call.Call.Args[0].Type()) {
+			return nil, nil, false
+		}
+		h = f
+		v = resolve(call.Call.Args[0])
+	}
+	ex, isEx := v.(*ssa.Extract)
+	if !isEx || ex.Index != 1 {
+		// an element of a local slice that holds nothing but (one form of) the map's keys
+		if h != nil {
+			return nil, nil, false
+		}
+		els := appendedElems(v)
+		if len(els) == 0 {
+			return nil, nil, false
+		}
+		for i, el := range els {
+			if _, isExt := resolve(el.v).(*ssa.Extract); !isExt {
+				if _, isCall := resolve(el.v).(*ssa.Call); !isCall {
+					return nil, nil, false
+				}
+			}
+			if u, isU := resolve(el.v).(*ssa.UnOp); isU && u == v {
+				return nil, nil, false
+			}
+			hh, rr, okk := keyTransformOf(el.v)
+			if !okk || (i > 0 && (hh != h || rr != ranged)) {
+				return nil, nil, false
+			}
+			h, ranged = hh, rr
+		}
+		return h, ranged, true
+	}
+	nx, isNx := ex.Tuple.(*ssa.Next)
+	if !isNx {
+		return nil, nil, false
+	}
+	rg, isRg := nx.Iter.(*ssa.Range)
+	if !isRg {
+		return nil, nil, false
+	}
+	return h, rg.X, true
+}
+
+// validTransform: the one form (the key itself, or h(key)) in which valid() hands names to the
+// validator; ok is false if the calls disagree or one cannot be read.
+func validTransform(valid, validKey *ssa.Function) (h *ssa.Function, ok bool) {
+	first := true
+	for _, ci := range CallsTo(valid, qualName(validKey)) {
+		call, isC := ci.Instr.(*ssa.Call)
+		if !isC {
+			continue
+		}
+		hk, _, okT := keyTransformOf(call.Call.Args[len(call.Call.Args)-1])
+		if !okT {
+			continue // a second phase over collected names: judged by the valid() rule itself
+		}
+		if !first && hk != h {
+			return nil, false
+		}
+		h, first = hk, false
+	}
+	return h, !first
 }
